@@ -34,7 +34,8 @@ type FsckReport struct {
 	NIndirect      int // indirect + double-indirect blocks in use
 	HalfFreed      int // inodes with ShrinkSize beyond their size
 	HalfFreedInums []uint64
-	RootBlocks     int // blocks mapped by the root directory
+	RootBlocks     int             // blocks mapped by the root directory
+	Owned          map[uint64]bool `json:"-"` // block numbers in use by some inode
 	OwnedBlocks    int
 	MarkedData     int // data blocks marked in the bitmap
 	MarkedInos     int
@@ -209,6 +210,10 @@ func Fsck(fs *fstxn.FsState, opts FsckOpts) *FsckReport {
 		}
 	}
 	r.OwnedBlocks = len(owner)
+	r.Owned = make(map[uint64]bool, len(owner))
+	for b := range owner {
+		r.Owned[uint64(b)] = true
+	}
 
 	// the directory tree
 	reached := map[uint64]string{}
